@@ -296,6 +296,10 @@ class Renum:
         if h not in self.d: self.d[h] = len(self.d) + 1
         return self.d[h]
 
+N_COMPUTE = 15
+COMPUTE = ["HeadMat", "H.solveLin(Matrix&)", "H.solveLin(Vector)", "H.inverse()", "H*v", "GainEEG", "GainEEGadjoint", "GainMEGadjoint", "GainEEGMEGadjoint", "GainMEG", "DipSourceMat", "Head2EEGMat", "Head2MEGMat", "DipSource2MEGMat", "Hinv*DSM"]
+OPERANDS = ["geometry", "HeadMat H", "Hinv", "dipoles", "DipSourceMat", "Head2EEGMat", "Head2MEGMat", "DipSource2MEGMat", "rhs matrix", "rhs vector", "EEG sensors", "MEG sensors"]
+
 def split_lenpref(v):
     out = []; i = 0
     while v is not None and i < len(v):
@@ -346,9 +350,26 @@ def build_catalog(ck, wd):
     models.write_off(os.path.join(md, "ico0.off"), models.transform(v0, 0.3), t0)
     models.write_tri(os.path.join(md, "ico1.tri"), models.transform(v1, 0.3), t1)       # shares the 12 icosahedron vertices with ico0
     models.write_bnd(os.path.join(md, "ico0big.bnd"), models.transform(v0, 2.0), t0)
+    def raw_tri(name, vs, ts):
+        with open(os.path.join(md, name), "w") as fh:
+            fh.write("- %d\n" % len(vs))
+            for v in vs: fh.write("%r %r %r %r %r %r\n" % (v + v))
+            fh.write("- %d %d %d\n" % ((len(ts),) * 3))
+            for t in ts: fh.write("%d %d %d\n" % t)
+        return os.path.join(md, name)
+    octv = [(1.0, 0.0, 0.0), (-1.0, 0.0, 0.0), (0.0, 1.0, 0.0), (0.0, -1.0, 0.0), (0.0, 0.0, 1.0), (0.0, 0.0, -1.0)]
+    octt = [(0, 2, 4), (2, 1, 4), (1, 3, 4), (3, 0, 4), (2, 0, 5), (1, 2, 5), (3, 1, 5), (0, 3, 5)]
+    # the same point listed twice (seam), an unused vertex, a repeated triangle, an unused duplicate of a used point
+    seam = raw_tri("oct_seam.tri", octv + [octv[4]], [(0, 2, 4), (2, 1, 6), (1, 3, 4), (3, 0, 6), (2, 0, 5), (1, 2, 5), (3, 1, 5), (0, 3, 5)])
+    unused = raw_tri("oct_unused_vertex.tri", octv + [(5.0, 5.0, 5.0)], octt)
+    reptri = raw_tri("oct_repeated_triangle.tri", octv, octt + [octt[0]])
+    dupun = raw_tri("oct_first_point_twice.tri", [octv[0]] + octv, [tuple(x + 1 for x in t) for t in octt])
+    tetra = raw_tri("tetra.tri", [(2.0, 2.0, 2.0), (2.0, -2.0, -2.0), (-2.0, 2.0, -2.0), (-2.0, -2.0, 2.0)], [(0, 1, 2), (0, 3, 1), (0, 2, 3), (1, 3, 2)])
     M = [("Head1.tri", "M %s/Head1.tri" % H1), ("cortex.1.tri", "M %s/cortex.1.tri" % H1), ("scalp.1.tri", "M %s/scalp.1.tri" % H1),
          ("ico0.tri", "M %s/ico0.tri" % md), ("ico0.off", "M %s/ico0.off" % md), ("ico1.tri", "M %s/ico1.tri" % md),
-         ("ico0big.bnd", "M %s/ico0big.bnd" % md), ("missing.tri", "M %s/missing.tri" % md), ("unknown-ext", "M %s/Head1.cond" % H1)]
+         ("ico0big.bnd", "M %s/ico0big.bnd" % md), ("missing.tri", "M %s/missing.tri" % md), ("unknown-ext", "M %s/Head1.cond" % H1),
+         ("oct_seam.tri", "M " + seam), ("oct_unused_vertex.tri", "M " + unused), ("oct_repeated_triangle.tri", "M " + reptri),
+         ("oct_first_point_twice.tri", "M " + dupun), ("tetra.tri", "M " + tetra)]
     ld = os.path.join(gd, "linop"); os.makedirs(ld, exist_ok=True)
     def wl(name, b):
         p = os.path.join(ld, name); open(p, "wb").write(b); return p
@@ -366,11 +387,11 @@ def build_catalog(ck, wd):
 def object_worlds(ck, hb, wd, cat):
     """one fresh process per catalog entry: what the operation does to a fresh object"""
     rn = Renum()
-    jobs = [("G", i) for i in range(len(cat["G"]))] + [("S0", i) for i in range(len(cat["S"]))] + [("S1", i) for i in range(len(cat["S"]))] + [("M", i) for i in range(len(cat["M"]))] + [("L%d" % k, i) for k in range(4) for i in range(len(cat["L"]))]
+    jobs = [("G", i) for i in range(len(cat["G"]))] + [("S0", i) for i in range(len(cat["S"]))] + [("S1", i) for i in range(len(cat["S"]))] + [("M", i) for i in range(len(cat["M"]))] + [("L%d" % k, i) for k in range(4) for i in range(len(cat["L"]))] + [("MF", i) for i in range(len(cat["M"]))] + [("CF", k) for k in range(N_COMPUTE)]
     def run(j):
         t, i = j; d = os.path.join(wd, "f%s_%d" % (t, i)); os.makedirs(d, exist_ok=True)
         shutil.copy(os.path.join(wd, "catalog.txt"), d)
-        line = {"G": "c17 20 %d", "S0": "c17 30 0 %d", "S1": "c17 30 1 %d", "M": "c17 40 %d", "L0": "c17 50 0 %d", "L1": "c17 50 1 %d", "L2": "c17 50 2 %d", "L3": "c17 50 3 %d"}[t] % i
+        line = {"G": "c17 20 %d", "S0": "c17 30 0 %d", "S1": "c17 30 1 %d", "M": "c17 40 %d", "L0": "c17 50 0 %d", "L1": "c17 50 1 %d", "L2": "c17 50 2 %d", "L3": "c17 50 3 %d", "MF": "c17 41 %d", "CF": "c17 6 1 %d"}[t] % i
         return ints(hrun(hb, [line], d, timeout=600)[0])
     with ThreadPoolExecutor(8) as ex:
         res = dict(zip(jobs, ex.map(run, jobs)))
@@ -414,13 +435,15 @@ def object_worlds(ck, hb, wd, cat):
             if ob is None: Lw[k].append(None)
             elif ob[0] != 0: Lw[k].append([ob[0], 0, 0, 0])
             else: Lw[k].append([0, ob[1], ob[2], ob[3]] + ob[4:])
-    return Gw, Sw, Mw, Lw, rn, res
+    MF = [res[("MF", i)] for i in range(len(cat["M"]))]
+    CF = [res[("CF", k)] for k in range(N_COMPUTE)]
+    return Gw, Sw, Mw, Lw, rn, res, MF, CF
 
 def check_objects(ck, hb, quick, replay):
     wd = os.path.join(ck.workdir, "obj"); os.makedirs(wd, exist_ok=True)
     cat = build_catalog(ck, wd)
-    Gw, Sw, Mw, Lw, rn, raw = object_worlds(ck, hb, wd, cat)
-    stats = dict(linop=dict(seqs=0, ops=0, status={}), geometry=dict(seqs=0, ops=0, op={}, status={}), sensors=dict(seqs=0, ops=0, status={}), mesh=dict(seqs=0, ops=0, op={}, status={}, explained_by_known_finding=0))
+    Gw, Sw, Mw, Lw, rn, raw, MF, CF = object_worlds(ck, hb, wd, cat)
+    stats = dict(compute=dict(seqs=0, ops=0, op={}), linop=dict(seqs=0, ops=0, status={}), geometry=dict(seqs=0, ops=0, op={}, status={}), sensors=dict(seqs=0, ops=0, status={}), mesh=dict(seqs=0, ops=0, op={}, status={}, explained_by_known_finding=0))
     bad = [l for (l, _), w in zip(cat["G"], Gw) if w is None] + [l for (l, _), w in zip(cat["M"], Mw) if w is None] + [l for ge in (0, 1) for (l, _), w in zip(cat["S"], Sw[ge]) if w is None] + [l for k in range(4) for (l, _), w in zip(cat["L"], Lw[k]) if w is None]
     for l in bad:
         ck.violation("objects: crash while describing %s" % l, "a single load of %s in a fresh process crashed the harness" % l, dict(kind="crash", entry=l), found_input=False)
@@ -429,9 +452,11 @@ def check_objects(ck, hb, quick, replay):
     nG, nS, nM = len(cat["G"]), len(cat["S"]), len(cat["M"])
     small = [i for i, w in enumerate(Gw) if w[1] <= 200]          # HeadMat only where it is cheap
     # ---- histories
-    gseqs = [[(0, 0), (0, 0)], [(0, 0), (0, 0), (1, 0)], [(0, 2), (0, 3)], [(0, 0), (1, 0), (1, 0), (0, 4), (0, 0), (1, 0)]]     # witnesses first
+    gseqs = [[(0, 0), (0, 0)], [(0, 0), (0, 0), (1, 0)], [(0, 2), (0, 3)], [(0, 0), (1, 0), (1, 0), (0, 4), (0, 0), (1, 0)],     # witnesses first
+             [(0, 0), (3, 0)], [(0, 0), (1, 0), (3, 0), (3, 0), (1, 0)], [(0, 2), (3, 0)], [(0, 1), (3, 0)]]
     sseqs = [(0, [0, 0]), (0, [0, 2]), (1, [9, 9])]
-    mseqs = [[(0, 0), (0, 1)], [(0, 0), (1, 0), (0, 0)], [(0, 0), (1, 0), (1, 0)]]
+    mseqs = [[(0, 0), (0, 1)], [(0, 0), (1, 0), (0, 0)], [(0, 0), (1, 0), (1, 0)],
+             [(0, 13), (0, 9)], [(0, 9), (0, 9)], [(0, 10), (0, 9), (0, 11), (0, 12)]]       # tetra then seam; seam twice; degenerate inputs in a row
     nL = len(cat["L"])
     lseqs = [(3, [0, 1]), (3, [3, 2]), (1, [4, 5])]
     if replay:
@@ -446,6 +471,7 @@ def check_objects(ck, hb, quick, replay):
             for _ in range(n):
                 if h and rng.random() < 0.2 and any(o == 0 and i in small for o, i in h[-1:]): h.append((1, 0))
                 elif h and rng.random() < 0.1: h.append((2, 0))
+                elif h and rng.random() < 0.15: h.append((3, 0))
                 else: h.append((0, rng.choice(small) if rng.random() < 0.7 else rng.randrange(nG)))
             gseqs.append(h)
         for _ in range(40 if quick else 400):
@@ -496,18 +522,51 @@ def check_objects(ck, hb, quick, replay):
         if obs and obs[0] == 0 and len(obs) > 8:
             nn = obs[8]; return obs[:9] + [rn(-h) for h in obs[9:9 + nn]] + obs[9 + nn:]
         return obs
+    # ---- computations on shared objects
+    if any(c is None or len(c) < 3 for c in CF):
+        ck.violation("compute: crash while measuring fresh results", "a single computation on freshly built Head1 operands crashed the harness", dict(kind="crash"), found_input=False)
+    else:
+        init = CF[0][1:1 + CF[0][0]]; fresh = [c[-2] for c in CF]
+        cseqs = [[1, 1], [6, 6], [1, 3], [6, 7, 8, 0], [3, 1, 2, 4], [8, 6, 5, 9]]
+        if replay: cseqs = [r["ops"] for r in replay if r["machine"] == "compute"]
+        else:
+            for _ in range(14 if quick else 120): cseqs.append([rng.randrange(N_COMPUTE) for _ in range(rng.randint(2, 8 if quick else 20))])
+        cmo = core.run_model(["c17 " + " ".join(map(str, [6, len(init)] + init + [len(fresh)] + fresh + [len(h)] + h)) for h in cseqs])
+        def cone(j):
+            d = os.path.join(wd, "c%d" % j); os.makedirs(d, exist_ok=True); shutil.copy(os.path.join(wd, "catalog.txt"), d)
+            r = hrun(hb, ["c17 " + " ".join(map(str, [6, len(cseqs[j])] + cseqs[j]))], d, timeout=900)[0]; shutil.rmtree(d, ignore_errors=True); return r
+        with ThreadPoolExecutor(8) as ex:
+            cho = list(ex.map(cone, range(len(cseqs))))
+        for h, m, o in zip(cseqs, cmo, cho):
+            stats["compute"]["seqs"] += 1; stats["compute"]["ops"] += len(h)
+            for k in h: stats["compute"]["op"][COMPUTE[k]] = stats["compute"]["op"].get(COMPUTE[k], 0) + 1
+            names = "; ".join(COMPUTE[k] for k in h)
+            rp = dict(kind="object-history", machine="compute", cases=[dict(machine="compute", ops=list(h))], history=names, replay_cmd="./check C17 --replay <this file>")
+            oi = ints(o)
+            if oi is None:
+                ck.violation("compute: crash in history " + names, "the harness crashed (%s): %s" % (o, names), rp); continue
+            hv = oi[1 + oi[0]:]; mv = [int(t) for t in m.split()]
+            if oi[1:1 + oi[0]] != init:
+                ck.violation("compute: operands built in another process differ", "the shared operands (Head1) are not bitwise reproducible across processes: %s vs %s" % (oi[1:1 + oi[0]], init), rp, found_input=False); continue
+            bad = [q for q in range(len(h)) if hv[2 * q:2 * q + 2] != mv[2 * q:2 * q + 2]]
+            if bad:
+                q = bad[0]; mask = hv[2 * q + 1]
+                changed = [OPERANDS[i] for i in range(len(OPERANDS)) if mask >> i & 1]
+                ck.violation("compute: %s after [%s] %s" % (COMPUTE[h[q]], "; ".join(COMPUTE[k] for k in h[:q]) if q <= 3 else "%d computations" % q, "modifies a const operand" if changed and (q == 0 or not hv[2 * q - 1]) else "gives another result than on fresh inputs"),
+                             "computation %d (%s) of the history [%s] on shared Head1 objects: result fingerprint %d, on freshly built inputs %d; const operands whose bits changed so far: %s"
+                             % (q, COMPUTE[h[q]], names, hv[2 * q], mv[2 * q], changed or "none"), rp)
     GOBS = ["status", "#vertices", "#meshes", "#domains", "nb_parameters", "#communicating_mesh_pairs", "#isolated_parts", "#invalid_vertices", "nb_current_barrier_triangles", "nested"]
     # ---- geometry
     for h, m, o in zip(gseqs, mg, hg):
         stats["geometry"]["seqs"] += 1; stats["geometry"]["ops"] += len(h)
-        names = "; ".join(("load " + cat["G"][i][0]) if op == 0 else "HeadMat" if op == 1 else "DipSourceMat" for op, i in h)
+        names = "; ".join(("load " + cat["G"][i][0]) if op == 0 else ["", "HeadMat", "DipSourceMat", "finalize()"][op] for op, i in h)
         rp = dict(kind="object-history", machine="geometry", cases=[dict(machine="geometry", ops=[list(x) for x in h])], history=names, replay_cmd="./check C17 --replay <this file>")
         mt = split_lenpref([int(t) for t in m.split()]); ht = split_lenpref(ints(o))
         if ints(o) is None:
             ck.violation("geometry: crash in history " + names, "the harness crashed (%s) while running the history in one process: %s; every single operation runs in a fresh process" % (o, names), rp); continue
         for q, (op, i) in enumerate(h):
-            on = ["load", "HeadMat", "DipSourceMat"][op]; stats["geometry"]["op"][on] = stats["geometry"]["op"].get(on, 0) + 1
-            if q < len(ht): stats["geometry"]["status"][str(ht[q][0]) if op == 0 else "assembled"] = stats["geometry"]["status"].get(str(ht[q][0]) if op == 0 else "assembled", 0) + 1
+            on = ["load", "HeadMat", "DipSourceMat", "finalize"][op]; stats["geometry"]["op"][on] = stats["geometry"]["op"].get(on, 0) + 1
+            if q < len(ht): stats["geometry"]["status"][str(ht[q][0]) if op in (0, 3) else "assembled"] = stats["geometry"]["status"].get(str(ht[q][0]) if op in (0, 3) else "assembled", 0) + 1
         diff = [q for q in range(len(h)) if q >= len(ht) or q >= len(mt) or ht[q] != mt[q]]
         if diff:
             q = diff[0]; a = ht[q] if q < len(ht) else None; b = mt[q] if q < len(mt) else None
@@ -536,7 +595,18 @@ def check_objects(ck, hb, quick, replay):
         rp = dict(kind="object-history", machine="mesh", cases=[dict(machine="mesh", ops=[list(x) for x in h])], history=names, replay_cmd="./check C17 --replay <this file>")
         if ints(o) is None:
             ck.violation("mesh: crash in history " + names, "the harness crashed (%s): %s" % (o, names), rp); continue
-        mt = split_lenpref([int(t) for t in m.split()]); it = split_lenpref([int(t) for t in mid.split()]); ht = split_lenpref(ints(o))
+        mt = split_lenpref([int(t) for t in m.split()]); it = split_lenpref([int(t) for t in mid.split()]); hfull = split_lenpref(ints(o))
+        ht = [x[:-2] for x in hfull]
+        # the property's own relation against a MEASURED fresh-object load: status, sizes, flags, triangles relative to the mesh's
+        # vertex list, number of distinct vertices and the text written by Mesh::save
+        def loc2(x): return x[0:1] + x[2:7] + x[7 + 3 * x[3]:]
+        mq = [q for q in range(min(len(h), len(hfull))) if h[q][0] == 0 and MF[h[q][1]] is not None and loc2(hfull[q]) != loc2(MF[h[q][1]])]
+        if mq:
+            q = mq[0]; a = hfull[q]; b = MF[h[q][1]]
+            ck.violation("mesh: loaded mesh differs from a fresh-object load after history (%s)" % (names if len(h) <= 3 else "%d operations" % len(h)),
+                         "operation %d of [%s] on one stand-alone Mesh gives (status,#vertex entries,#triangles,flags..)=%s distinct vertices=%d Mesh::save fingerprint=%d; the same file loaded into a fresh Mesh gives %s distinct vertices=%d Mesh::save fingerprint=%d"
+                         % (q, names, a[0:1] + a[2:7], a[-2], a[-1], b[0:1] + b[2:7], b[-2], b[-1]), rp)
+            continue
         for q, (op, i) in enumerate(h):
             stats["mesh"]["op"]["load" if op == 0 else "SurfSourceMat"] = stats["mesh"]["op"].get("load" if op == 0 else "SurfSourceMat", 0) + 1
             if q < len(ht) and op == 0: stats["mesh"]["status"][str(ht[q][0])] = stats["mesh"]["status"].get(str(ht[q][0]), 0) + 1
@@ -582,17 +652,17 @@ def main(replay=None):
     st_io, seqs, st_obj = {}, [], {}
     if not replay or rmach == "io":
         st_io, seqs = check_io(ck, hb, quick, rcases)
-    if not replay or rmach in ("geometry", "sensors", "mesh", "linop"):
+    if not replay or rmach in ("geometry", "sensors", "mesh", "linop", "compute"):
         st_obj = check_objects(ck, hb, quick, rcases)
     ck.drop_proof_violation_if(any(v[3] for v in ck.violations))
-    nobj = sum(st_obj.get(k, {}).get("ops", 0) for k in ("geometry", "sensors", "mesh", "linop"))
+    nobj = sum(st_obj.get(k, {}).get("ops", 0) for k in ("geometry", "sensors", "mesh", "linop", "compute"))
     ck.cov.update(evaluations=st_io.get("ops", 0) + nobj,
-                  distinct_nontrivial=len({json.dumps(s) for s in seqs if len(s[1]) >= 2}) + sum(st_obj.get(k, {}).get("seqs", 0) for k in ("geometry", "sensors", "mesh", "linop")),
+                  distinct_nontrivial=len({json.dumps(s) for s in seqs if len(s[1]) >= 2}) + sum(st_obj.get(k, {}).get("seqs", 0) for k in ("geometry", "sensors", "mesh", "linop", "compute")),
                   rule="IO: operation histories (length 1..%d) over 12 file names (suffix classes mat/txt/tex/bin/unknown/none, two in a missing directory) and %d measured contents; objects: load/assemble histories (length 2..%d) on one Geometry / Sensors / Mesh object over the catalog of data and generated files; non-trivial = at least two operations; distinct = distinct histories" % (8 if quick else 20, st_io.get("contents", 0), 8 if quick else 20),
                   samples=[json.dumps(dict(fs=fs, ops=ops)) for fs, ops in seqs[3:6]],
-                  op_distribution=dict(io=st_io.get("op", {}), geometry=st_obj.get("geometry", {}).get("op", {}), mesh=st_obj.get("mesh", {}).get("op", {}), sensors=dict(load=st_obj.get("sensors", {}).get("ops", 0)), linop=dict(load=st_obj.get("linop", {}).get("ops", 0))),
+                  op_distribution=dict(io=st_io.get("op", {}), geometry=st_obj.get("geometry", {}).get("op", {}), mesh=st_obj.get("mesh", {}).get("op", {}), sensors=dict(load=st_obj.get("sensors", {}).get("ops", 0)), linop=dict(load=st_obj.get("linop", {}).get("ops", 0)), compute=st_obj.get("compute", {}).get("op", {})),
                   outcome_distribution=dict(io=st_io.get("fail", {}), geometry=st_obj.get("geometry", {}).get("status", {}), sensors=st_obj.get("sensors", {}).get("status", {}), mesh=st_obj.get("mesh", {}).get("status", {}), linop=st_obj.get("linop", {}).get("status", {})),
-                  traces_validated_against_impl=st_io.get("seqs", 0) + sum(st_obj.get(k, {}).get("seqs", 0) for k in ("geometry", "sensors", "mesh", "linop")), io=st_io, objects=st_obj)
+                  traces_validated_against_impl=st_io.get("seqs", 0) + sum(st_obj.get(k, {}).get("seqs", 0) for k in ("geometry", "sensors", "mesh", "linop", "compute")), io=st_io, objects=st_obj)
     sigs = [v[0] for v in ck.violations] + [k for k, _ in ck.known_hits]
     wit = {"io_history_independent_pinned_refuted: load Matrix f1.txt(absent); load Vector f7.xyz": any(x.startswith("io: failed-open-leaves-format") for x in sigs),
            "io (write side): save Vector nodir/f6.txt; save Vector f7.xyz": any(x.startswith("io: failed-open-for-writing") for x in sigs),
